@@ -103,7 +103,7 @@ def unit_doc(a):
     return stats
 
 
-ALPHA = ['"', "`", "\\", " ", "x"]
+ALPHA = ['"', "`", "\\", " ", "x", "#", "\t"]
 
 
 def check_small(case, stats):
@@ -155,9 +155,9 @@ def replay(case, stats):
 def run(ctx):
     q = ctx.quick
     ctx.units("docstring-documents", unit_doc, [{"n": 750 if q else 7000, "seed": ctx.seed, "shard": i} for i in range(8 if q else 16)], procs=16)
-    ctx.units("small-lines-exhaustive", unit_small, [{"maxlen": 6 if q else 8, "shard": i, "nshards": 16} for i in range(16)], procs=16)
+    ctx.units("small-lines-exhaustive", unit_small, [{"maxlen": 5 if q else 7, "shard": i, "nshards": 16} for i in range(16)], procs=16)
     ctx.exhaustive = False
-    ctx.extra["exhaustive_part"] = "every media type and every single content line of length <= %d over quote, backtick, backslash, blank, letter, for both delimiters at two indentations" % (6 if q else 8)
+    ctx.extra["exhaustive_part"] = "every media type and every single content line of length <= %d over quote, backtick, backslash, blank, letter, hash, tab, for both delimiters at two indentations" % (5 if q else 7)
     ctx.rule = ("documents whose background / scenario / outline steps carry doc strings: both delimiters, any indentation relation between delimiter and "
                 "content (spaces, tabs, exotic blanks), media type none/word/with blanks/starting with a quote, content lines drawn from arbitrary text and every "
                 "kind of Gherkin-looking line (keywords, tags with blanks, comments, language headers, table rows, blank lines, the other delimiter, escaped and "
